@@ -11,7 +11,11 @@ RULE = (
     "arrives and fresh recvs drain the socket. REQ: send, recv polled k times and dropped, second send, late reply, "
     "recv. Seeded variants with 2..3 peers and random drop points. Non-trivial: at least one recv was dropped while "
     "Pending and a later one returned a message. Spec oracle: the drained sequence equals the messages put on the wire "
-    "(per peer, in order, each once); REQ refuses the second send and returns the first reply."
+    "(per peer, in order, each once); REQ refuses the second send and returns the first reply. Family cancel-then-wait: "
+    "after the abandoned recvs a later recv is polled to Pending FIRST and the bytes arrive afterwards; every future is "
+    "polled with its own waker and the harness reports (`woken f`) whether that waker fired: a future that goes from "
+    "Pending to Ready without its waker having been woken would hang on an executor (the wake-up went to the abandoned "
+    "call)."
 )
 ASSUMPTIONS = ["futures are dropped between polls (Rust futures cannot be cancelled inside a poll)"]
 TRUSTED = ["async-trait boxed futures; futures::StreamExt::next holds no state between polls"]
@@ -59,6 +63,33 @@ def cases(tier, rng):
                         f = sc.fut()
                         sc.add(f"recv {f} 1", f"poll {f}", f"drop {f}")
                     cs = sc.case(f"cancel-{t}#{n}", ["cancel-" + t])
+                    cs.expect = ("fq", t, {1: [expected(t, m, b"peer1") for m in ms]})
+                    out.append(cs)
+                    n += 1
+    # the later recv is left WAITING (Pending) and the message arrives afterwards: the wake-up must reach the
+    # later call's waker, not the abandoned call's (every future in this engine is polled with a waker of its own)
+    for t in PEER:
+        ms = msgs_for(t, b"1")
+        stream = b"".join(zmtp.message(m) for m in ms)
+        for k in (1, 2, 3):
+            for r in (1, 2):
+                for cut in (0, 3, len(stream) - 1):
+                    sc = wg.Script()
+                    sc.sock(1, t)
+                    sc.attach(1, 1, PEER[t], b"peer1")
+                    if cut:
+                        sc.add(f"reveal 1 {wg.hx(stream[:cut])}")
+                    for _ in range(r):
+                        f = sc.fut()
+                        sc.add(f"recv {f} 1")
+                        sc.add(*[f"poll {f}"] * k)
+                        sc.add(f"drop {f}")
+                    g = sc.fut()
+                    sc.add(f"recv {g} 1", f"poll {g}", f"reveal 1 {wg.hx(stream[cut:])}", f"woken {g}", f"poll {g}", f"drop {g}")
+                    for _ in range(3):
+                        f = sc.fut()
+                        sc.add(f"recv {f} 1", f"poll {f}", f"drop {f}")
+                    cs = sc.case(f"cancel-then-wait-{t}#{n}", ["cancel-then-wait"])
                     cs.expect = ("fq", t, {1: [expected(t, m, b"peer1") for m in ms]})
                     out.append(cs)
                     n += 1
@@ -126,6 +157,9 @@ def cases(tier, rng):
 def oracle(case, lines):
     if any(l.startswith(("PANIC", "ABORT", "TIMEOUT")) for l in lines):
         return "panic/abort"
+    lost = wg.wake_contract(case, lines)
+    if lost:
+        return lost
     if not case.expect:
         return None
     if case.expect[0] == "req":
